@@ -35,7 +35,9 @@ RULE = (
     "lb / ub / step or an offset of a second, plain (barrier-free, hence unpipelined) loop after the first one; classes "
     "'<bound> value shared: <place>' are counted on the IR construct-pipeline receives. The whole function is executed, so "
     "these ops are part of every comparison. "
-    "pipeline-canonicalize-for runs first as in snaxc_main; the loop it leaves is the sequential reference. construct-pipeline, "
+    "pipeline-canonicalize-for runs first as in snaxc_main (for a quarter of the loops with lb != 0 or step != 1, and half of the short loops at a "
+    "positive lower bound whose ub alone looks pipelinable, it is left out and construct-pipeline receives the loop as written); the loop it "
+    "leaves is the sequential reference. construct-pipeline, "
     "pipeline-duplicate-buffers, unroll-pipeline are applied and both programs are executed on a two-core epoch machine with "
     "symbolic buffer contents (vlib/machine_c15.py). Oracles: (1) the multiset of (stage op, evaluated operand tiles) is equal, "
     "i.e. every (stage, iteration) exactly once with the same index-dependent operands; (2) no tile is touched that the "
